@@ -810,8 +810,8 @@ Theorem heap_struct_is_backing_block k tg ar ops s :
     exists d p pi, find_desc (descs s) h = Some d /\ get_page s p = Some pi /\ In d (blocks pi) /\
                    pheap pi = Some (backing s) /\ In d (live_blocks s) /\ heap_contains_block s (backing s) d = true.
 Proof.
-  assert (forall ops s0 s, heap_Inv s0 -> descs_Inv s0 -> heap_run_safe s0 ops = Some s -> heap_Inv s /\ descs_Inv s) as RUN.
-  { induction ops as [|o r IH]; intros s0 s1 I D; cbn [heap_run_safe].
+  assert (forall l s0 s1, heap_Inv s0 -> descs_Inv s0 -> heap_run_safe s0 l = Some s1 -> heap_Inv s1 /\ descs_Inv s1) as RUN.
+  { induction l as [|o r IH]; intros s0 s1 I D; cbn [heap_run_safe].
     - intros K. inversion K; subst. auto.
     - destruct (op_safe s0 o) eqn:SF; [|discriminate]. destruct (heap_step s0 o) as [s2|] eqn:ST; [|discriminate].
       apply IH; [eapply heap_inv_preserved; eauto|eapply desc_inv_preserved; eauto]. }
@@ -856,4 +856,19 @@ Proof.
   apply live_block_freeable; [exact Iu| |].
   - apply live_blocks_in. exists p, pi. split; [apply get_page_in; exact Gu|exact Hb].
   - rewrite (live_heap_of_block _ d p pi Iu Gu Hb), E. discriminate.
+Qed.
+
+(* the ghost home heap is set by the allocation itself (not read back from the page) *)
+Lemma malloc_sets_home s h bin b c s' : block_malloc s h bin b c = Some s' ->
+  find_home (home s') b = Some (Some h) /\ (forall b', b' <> b -> find_home (home s') b' = find_home (home s) b').
+Proof.
+  unfold block_malloc. destruct (get_heap s h) as [hp|] eqn:H; [|discriminate]. destruct (negb _); [discriminate|].
+  destruct (inb b _); [discriminate|]. destruct c as [p capb|p start size capb].
+  - destruct (get_page s p); [|discriminate]. destruct (_ && _); [|discriminate]. intros K. inversion K; subst s'.
+    unfold home_add. cbn [home set_home find_home fst snd]. rewrite N.eqb_refl. split; [reflexivity|].
+    intros b' Hb. apply N.eqb_neq in Hb. rewrite N.eqb_sym, Hb. hs.
+    unfold move_to_front. rewrite H. destruct (qget (queues hp) bin) as [|q r]; [reflexivity|]. destruct (q =? p); reflexivity.
+  - destruct (get_page s p); [discriminate|]. destruct (_ && _); [|discriminate]. intros K. inversion K; subst s'.
+    unfold home_add. cbn [home set_home find_home fst snd]. rewrite N.eqb_refl. split; [reflexivity|].
+    intros b' Hb. apply N.eqb_neq in Hb. rewrite N.eqb_sym, Hb. reflexivity.
 Qed.
